@@ -627,7 +627,13 @@ def contract_shortcut(ck, lin, method, asg, leaf):
     exactly this call's (*args, **kwargs)."""
     it = items(leaf)
     sim = ("call", ("attr", SELF, "simulate"), (("star", ARGS),), ((None, KW),))
-    if it is None or not it or lin.norm(it[0]) != sim:
+
+    def eta(t):
+        # f(args[0], ..., args[k-1], *args[k:]) is f(*args)
+        if is_call(t) and t[2] and t[2][-1] == ("star", ("rest", ARGS, len(t[2]) - 1)) and all(a == ("idx", ARGS, C(i)) for i, a in enumerate(t[2][:-1])):
+            return ("call", t[1], (("star", ARGS),), t[3])
+        return t
+    if it is None or not it or eta(lin.norm(it[0])) != sim:
         return False
 
     def zero(t):
@@ -674,41 +680,29 @@ def vmap_rule(ctx, method, rule="ALG-Vmap"):
     if method == "simulate":
         ck.eq("in_axes = self.in_axes.value", inax or NONE, val)
     else:
-        seen_none = False
-        isint = call(N("builtins.isinstance"), val, N("builtins.int"))
-        nargs = call(N("builtins.len"), ARGS)
-        for asg, leaf in all_cases(inax if inax is not None else NONE):
-            is_none = is_int = None
-            for c, v in asg.items():
-                rr = none_test(c, val)
-                if rr is not None:
-                    is_none = (rr == v)
-                elif c == isint:
-                    is_int = v
-                elif is_call(c, name="builtins.isinstance") and c[2] and c[2][0] == val:
-                    pass  # further normalisation of list/tuple forms
-                else:
-                    raise AnalysisError(f"{construct}: unrecognised in_axes condition {short(c, ev)}")
-            if is_none is None:
-                raise AnalysisError(f"{construct}: in_axes not split on `self.in_axes.value is None`")
-            if not (leaf[0] == "binop" and leaf[1] == "+" and leaf[2] == ("tuple", tuple(axes))):
-                ck.fail("in_axes = method prefix + callee in_axes", f"expected prefix {short(('tuple', tuple(axes)), ev)}, found {short(leaf, ev)}")
+        # finite-model evaluation of the in_axes term: the callee's in_axes specification ranges over the forms jax.vmap accepts
+        # (None, an int, a tuple, a list), the call has two user arguments; the result must be the method's own prefix followed by
+        # one entry per user argument
+        from ..absint import Model, Unknown, Opq
+        a0, a1 = Opq("arg0"), Opq("arg1")
+        specs = [(None, (None, None)), (0, (0, 0)), (1, (1, 1)), ((0, None), (0, None)), ([0, None], (0, None)), ((None, 1), (None, 1))]
+        prefix = tuple(x[1] if x[0] == "const" else x for x in axes)
+        for spec, norm in specs:
+            m = Model(evaluator=ev)
+            m.bind(val, spec)
+            m.bind(ARGS, (a0, a1))
+            try:
+                got = m.ev(inax if inax is not None else NONE)
+            except Unknown as e:
+                raise AnalysisError(f"{construct}: in_axes not evaluable for callee in_axes = {spec!r}: {e}")
+            except Exception as e:   # the modelled expression itself fails (e.g. tuple + int)
+                ck.fail(f"in_axes defined for callee in_axes = {spec!r}", f"{type(e).__name__}: {e}")
                 continue
-            rest = leaf[3]
-            if is_none:
-                seen_none = True
-                if is_int:
-                    continue  # infeasible combination
-                if rest != ("binop", "*", ("tuple", (NONE,)), nargs):
-                    ck.fail("callee in_axes None → (None,)*len(args)", f"found {short(rest, ev)}")
-            elif is_int:
-                if rest != ("binop", "*", ("tuple", (val,)), nargs):
-                    ck.fail("callee in_axes int → (in_axes,)*len(args)", f"found {short(rest, ev)}")
-            else:
-                if rest not in (val, call(N("builtins.tuple"), val)):
-                    ck.fail("callee in_axes tuple/list → its own entries", f"found {short(rest, ev)}")
-        if not seen_none:
-            ck.fail("callee in_axes None handled", "no None case")
+            want = prefix + norm
+            if isinstance(got, list):
+                got = tuple(got)
+            if got != want:
+                ck.fail("in_axes = method prefix + one entry per user argument", f"callee in_axes {spec!r} with two arguments gives {got!r}, expected {want!r}")
     for opt in ("axis_size", "axis_name", "spmd_axis_name"):
         got = ev.kwget(rec["opts"], opt)
         want = ("attr", ("attr", SELF, opt), "value")
@@ -805,22 +799,25 @@ def vmap_kwargs_sig(ctx, rule="SIG-kwargs"):
     clo = ret if ret[0] == "closure" else [a for a in ret[2] if a[0] == "closure"][0]
     node = ev.closures[clo[1]].node
     accepts_kw = node.args.kwarg is not None
-    kind, cls, mod, _ = ctx.p.get_class(CORE + "Vmap")
+    # decided on the evaluator's vectorisation records (helper extraction does not matter): for each GFI method of Vmap, the call of the
+    # function returned by modular_vmap that passes **kwargs on
     n = 0
-    for st in cls.body:
-        if not isinstance(st, ast.FunctionDef):
+    for method in ("simulate", "generate", "assess", "update", "regenerate"):
+        ev2 = mk_ev(ctx)
+        dotted = CORE + "Vmap." + method
+        s2 = summarize(ctx, ev2, dotted)
+        construct = f"core.Vmap.{method}"
+        recs = [r for r in ev2.vmaps.values() if r.get("which", "").endswith("modular_vmap")]
+        fw = [r for r in recs if any(k is None for k, _ in r.get("kwargs", ()))]
+        if not fw:
             continue
-        for c in ast.walk(st):
-            if isinstance(c, ast.Call) and isinstance(c.func, ast.Call) and ast.unparse(c.func.func) == "modular_vmap" \
-                    and any(k.arg is None for k in c.keywords):
-                n += 1
-                construct = f"core.Vmap.{st.name}"
-                if accepts_kw:
-                    ctx.ok(rule, construct)
-                else:
-                    ctx.bad(rule, construct, "modular_vmap(...)(..., **kwargs)",
-                            "pjax.modular_vmap.wrapped accepts positional arguments only: any keyword argument through Vmap raises TypeError", ctx.loc(mod, c))
-    ctx.need(n >= 5, f"SIG-kwargs: only {n} Vmap call sites forwarding **kwargs found (floor 5)")
+        n += 1
+        if accepts_kw:
+            ctx.ok(rule, construct)
+        else:
+            ctx.bad(rule, construct, "modular_vmap(...)(..., **kwargs)",
+                    "pjax.modular_vmap.wrapped accepts positional arguments only: any keyword argument through Vmap raises TypeError", func_loc(ctx, dotted))
+    ctx.need(n >= 5 or accepts_kw, f"SIG-kwargs: only {n} Vmap methods forwarding **kwargs to the vectorised callee found (floor 5)")
 
 
 # ====================================================================== Scan
@@ -1013,6 +1010,8 @@ def cond_rule(ctx, method, rule="ALG-Cond"):
                 ck.fail("generate returns (trace, weight)", f"found {short(leaf, ev)}")
                 continue
             saw.add(pol)
+            if pol and contract_shortcut(ck, lin, method, asg, leaf):
+                continue
             if pol:
                 a, b = cond_sub("callee", "simulate"), cond_sub("callee_", "simulate")
                 alt_a, alt_b = cond_sub("callee", "generate", NONE), cond_sub("callee_", "generate", NONE)
@@ -1155,7 +1154,7 @@ def cond_trace_rules(ctx, rule="ROLE-CondTr"):
         for node in ast.walk(m.tree):
             if isinstance(node, ast.Call) and isinstance(node.func, ast.Name) and node.func.id == "CondTr":
                 n += 1
-                third = node.args[2] if len(node.args) == 3 else None
+                third = node.args[2] if len(node.args) == 3 else next((k.value for k in node.keywords if k.arg == "trs"), None)
                 if isinstance(third, ast.List):
                     if len(third.elts) != 2:
                         ctx.bad(rule, "core.CondTr(...)", "two-branch literal", "CondTr constructed with a branch list that does not have 2 elements", ctx.loc(m, node))
